@@ -30,6 +30,10 @@ def main(argv):
             attached['boundary'] = boundary.attach()
         if 'tape' in wanted:
             attached['tape'] = tape.attach()
+        if 'twins' in getattr(mod, 'MONITORS', ('twins',)) and not replay:
+            # differently configured instances given the same input first (interleaving injection at the API boundary)
+            from mon import twins
+            attached['twins'] = twins.attach(seed, shard, tier, **getattr(mod, 'TWINS', {}).get(tier, {}))
     except Exception as e:  # import failure of the tree under test: inconclusive, not violation
         ctx.notes.append('attach failed: %r' % (e,))
         ctx.counters['attach_failed'] = 1
@@ -51,6 +55,8 @@ def main(argv):
         ctx.monitor['boundary'] = boundary.stats()
         from mon.monitors import contracts
         ctx.monitor['contracts'] = contracts.stats()
+        from mon import twins
+        ctx.monitor['twins'] = twins.stats()
         for name, nb in contracts.breaks.items():
             ctx.violate('contract/' + name, 'icontract post-condition on %s broken %d time(s); first: %s'
                         % (name, nb, contracts.first_breaks.get(name)), dict(contract=name), advisory=True)
